@@ -36,7 +36,8 @@ theorem c04_sites :
     want_getAuthInfoFromAuthJWT = sessionType ∧ want_VerifyAuthTokenHandler = cliType ∧
     want_SendAuthDocumentHandler = cliType ∧
     cmps_getAuthInfoFromJWT = expectAuthValues (.param "tokenType".toList) ∧
-    cmps_updateAuthJWTWithNewAuthLevel = expectAuthValues (.lit sessionType) ∧
+    cmps_updateAuthJWTWithNewAuthLevel =
+      expectAuthValues (.lit sessionType) ++ [⟨.subject, .ne, .param "username".toList⟩] ∧
     cmps_getStorageDataFromStorageStringDataJWT = expectAuthValues (.lit storageType) ∧
     cmps_GetSigned = [⟨.subject, .ne, .param "username".toList⟩, ⟨.dataType, .ne, .param "dataType".toList⟩,
                       ⟨.expiration, .lt, .nowUnix⟩] ∧
@@ -105,10 +106,14 @@ def evalAuthCmp (d : Deployment) (now : Clock) (want : Str) (w : Wire) : Cmp →
 
 /-- **Table = model.** `authValuesBad` (used by the session, CLI, upgrade and storage consumers) is
 exactly the disjunction of the comparisons extracted from `getAuthInfoFromJWT`,
-`updateAuthJWTWithNewAuthLevel` and `getStorageDataFromStorageStringDataJWT`. -/
+`updateAuthJWTWithNewAuthLevel` and `getStorageDataFromStorageStringDataJWT`. The upgrade consumer's last
+comparison (the cookie's subject against the user the request was authenticated as, added by the repair of
+the certificate-plus-foreign-cookie defect) is not a test of the token but of whose session is raised: it is
+modelled and proved under C05 (`KM.SessionCert`, `c05_cert_*`); here the caller is the token's own subject. -/
 theorem c04_table_model (d : Deployment) (now : Clock) (want : Str) (w : Wire) :
     authValuesBad d now want w = cmps_getAuthInfoFromJWT.any (evalAuthCmp d now want w) ∧
-    authValuesBad d now sessionType w = cmps_updateAuthJWTWithNewAuthLevel.any (evalAuthCmp d now sessionType w) ∧
+    authValuesBad d now sessionType w =
+      cmps_updateAuthJWTWithNewAuthLevel.dropLast.any (evalAuthCmp d now sessionType w) ∧
     authValuesBad d now storageType w =
       cmps_getStorageDataFromStorageStringDataJWT.any (evalAuthCmp d now storageType w) := by
   have h1 := c04_sites.2.2.2.2.2.1
@@ -122,7 +127,7 @@ theorem c04_table_model (d : Deployment) (now : Clock) (want : Str) (w : Wire) :
     | cons a as =>
       simp
       omega
-  simp [expectAuthValues, evalAuthCmp, authValuesBad, Bool.or_assoc, hl]
+  simp [expectAuthValues, evalAuthCmp, authValuesBad, Bool.or_assoc, hl, List.dropLast]
 
 /-! ### soundness: whatever a consumer honours satisfies the property's predicate -/
 
